@@ -45,23 +45,27 @@ def scenario(kind, res, lean_lines, meta):
     base = os.path.realpath(tempfile.mkdtemp(prefix="wdverif-c19-", dir=os.environ.get("TMPDIR") or None))
     old_cwd = os.getcwd()
     observers = []
+    # "+u": the watched root's own name is not ASCII (its str and bytes spellings differ in length)
+    full_kind = kind
+    kind, _, uni = kind.partition("+")
+    data = "d\u00e4ta-\u4e2d" if uni else "data"
     try:
         # the watched root is base/data ; with the relative spellings the process works from `base`
-        os.makedirs(os.path.join(base, "data", "a", "metadata", "archive"))
-        os.makedirs(os.path.join(base, "data", "w"))
-        rootB_abs = os.fsencode(os.path.join(base, "data"))
+        os.makedirs(os.path.join(base, data, "a", "metadata", "archive"))
+        os.makedirs(os.path.join(base, data, "w"))
+        rootB_abs = os.fsencode(os.path.join(base, data))
         if kind == "str":
-            arg, rootB = os.path.join(base, "data"), rootB_abs
+            arg, rootB = os.path.join(base, data), rootB_abs
         elif kind == "bytes":
             arg, rootB = rootB_abs, rootB_abs
         elif kind == "path":
-            arg, rootB = pathlib.Path(base, "data"), rootB_abs
+            arg, rootB = pathlib.Path(base, data), rootB_abs
         elif kind == "relstr":
             os.chdir(base)
-            arg, rootB = "data", b"data"
+            arg, rootB = data, os.fsencode(data)
         else:
             os.chdir(base)
-            arg, rootB = b"data", b"data"
+            arg, rootB = os.fsencode(data), os.fsencode(data)
         want_bytes = isinstance(arg, bytes)
         wk = "b" if want_bytes else ("p" if kind == "path" else "s")
         recs = {}
@@ -131,19 +135,19 @@ def scenario(kind, res, lean_lines, meta):
                         return (f"{backend}: event path {p!r} names {rel!r}, which never existed under the watched root "
                                 f"({type(e).__name__}, synthetic={e.is_synthetic})")
                     comps = [c for c in rel.split(b"/") if c]
-                    res.nontrivial((kind, backend, rel, type(e).__name__))
+                    res.nontrivial((full_kind, backend, rel, type(e).__name__))
                     if e.is_synthetic and backend == "native" and len(comps) > 1:
                         line = f"evpath sub {wk} {hexs(rootB)} 1 {hexs(comps[0])} {len(comps) - 1} " + " ".join(hexs(c) for c in comps[1:])
                     else:
                         line = (f"evpath {'native' if backend == 'native' else 'polling'} {wk} {hexs(rootB)} {len(comps)} "
                                 + " ".join(hexs(c) for c in comps) + " 0").replace("  ", " ")
                     lean_lines.append(line)
-                    meta.append((kind, backend, ("b:" if isinstance(p, bytes) else "s:") + (rootB + (b"/" + rel if rel else b"")).hex(), repr(p)))
+                    meta.append((full_kind, backend, ("b:" if isinstance(p, bytes) else "s:") + (rootB + (b"/" + rel if rel else b"")).hex(), repr(p)))
         only_n = {p for p in created["native"] - created["polling"]}
         only_p = {p for p in created["polling"] - created["native"]}
         if only_n or only_p:
             return (f"the native and the polling observer disagree on the created paths: native only {sorted(map(repr, only_n))[:4]}, "
-                    f"polling only {sorted(map(repr, only_p))[:4]} (root given as {kind})")
+                    f"polling only {sorted(map(repr, only_p))[:4]} (root given as {full_kind})")
         return None
     finally:
         for o in observers:
@@ -190,8 +194,8 @@ def run(res, tier, lean, proof_breaks=(), build_log=""):
     res.cov["rule"] = ("every non-empty src/dest path of every event the real InotifyObserver and PollingObserver deliver for a fixed "
                        "history (create, nested create, directory rename with synthetic events, deep change after a rename, move, "
                        "delete, rmtree) over plain / non-NFC / undecodable names, root given as str, bytes, pathlib.Path, relative "
-                       "str and relative bytes; distinct = (root spelling, backend, relative name, event class)")
-    kinds = ["str", "bytes", "path", "relstr", "relbytes"]
+                       "str and relative bytes, and a root whose own name is not ASCII (str, relative str, bytes); distinct = (root spelling, backend, relative name, event class)")
+    kinds = ["str", "bytes", "path", "relstr", "relbytes", "str+u", "relstr+u", "bytes+u"]
     lean_lines, meta = [], []
     for k in kinds:
         v = scenario(k, res, lean_lines, meta)
